@@ -87,7 +87,7 @@ def rtxt(form, i, j):
 
 @family('range')
 def fam_range(tier):
-    alph = INTS_RNG if tier == 'thorough' else INTS_RNG_Q
+    alph = INTS_RNG if tier != 'small' else INTS_RNG_Q
     for c in CONTS:
         tc = tname(c)
         C = lit(c)
